@@ -71,6 +71,8 @@ BEGIN {
 	if (mode == "wopen") { print "w1" > "out1"; print "w2" > "out2"; printf "a" >> "out1"; x = "wopen" }
 	if (mode == "ropen") { r1 = (getline l1 < "f1"); r2 = (getline < "f2"); r5 = (getline l5 < "-"); r4 = (getline) }
 	if (mode == "sys") { x = system("true") }
+	if (mode == "srandonly") { sr = srand(7) }
+	if (mode == "srandrand") { sr = srand(7); r = rand(); sr = srand(11) }
 	if (mode == "cmdopen") { print "to-cat" | "cat"; r1 = ("emit a b" | getline l1); x = system("emit s0"); print "again" | "cat" }
 	if (mode == "setmodes") { INPUTMODE = "csv header"; OUTPUTMODE = "tsv" }
 	if (mode == "probe") {
@@ -216,6 +218,8 @@ func c14Alphabet(thorough bool) []c14Op {
 		cx("plain", 1, c14Cfg{Stdin: "a b\nc d e\n", Vars: c14v("plain")}),
 		cx("plain", 0, c14Cfg{Stdin: "a b\nc d e\n", Vars: c14v("plain")}), // completes under a context that is cancelled afterwards
 		ex("cmdopen", c14Cfg{Stdin: "a\n", Vars: c14v("cmdopen")}),
+		ex("srandonly", c14Cfg{Stdin: "", Vars: c14v("srandonly")}), // seeds, never draws
+		ex("srandrand", c14Cfg{Stdin: "", Vars: c14v("srandrand")}), // seeds, draws, seeds again
 		cx("cmdopen", 0, c14Cfg{Stdin: "a\n", Vars: c14v("cmdopen")}),
 		ex("wopen", c14Cfg{Stdin: "a\n", Vars: c14v("wopen")}),
 		ex("ropen", c14Cfg{Stdin: "s1 s2\ns3\n", Vars: c14v("ropen")}),
